@@ -3,7 +3,7 @@
    address: both are past lock acquisition.  (Confirmed on the binary with a two-address host name; repaired by the fix "the run lock
    covers every address its host resolves to".) *)
 From Coq Require Import List Arith Bool.
-From MR Require Import Model.LockAddrs.
+From MR Require Import Model.LockAddrs Properties.C14.
 Import ListNotations.
 
 Definition C14_multi_address_statement (mrun : nat -> nat -> list mchoice -> msys) : Prop :=
@@ -17,3 +17,8 @@ Proof.
 Qed.
 
 Print Assumptions C14_as_found_refuted.
+
+(* the first version of bind_all (repair 12) bound every list entry: an address listed twice collides with the process's own listener *)
+Lemma C14_lone_acquires_refuted_without_dedup : ~ C14_lone_acquires_statement (acquire_alone false).
+Proof. intro H. specialize (H [7; 7]). vm_compute in H. discriminate. Qed.
+Print Assumptions C14_lone_acquires_refuted_without_dedup.
